@@ -262,12 +262,90 @@ contract(OM + "_borrow", props=["C07", "C10", "C02", "C01"], types={"required_ba
 # ---------------------------------------------------------------------------------------------------------------------
 # auto-repay (C11): open loans in the acquired symbol, largest first, as far as funds allow
 # ---------------------------------------------------------------------------------------------------------------------
-contract(OM + "_repay_loans", props=["C11", "C01", "C02"],
+# the symbol an order acquires when it trades: the base symbol of a buy, the quote symbol of a sell
+specfun("cs", ["o"], "ob(o) if is_buy(o) else oq(o)")
+specfun("lm_items", ["m"], "om_lm(m)._loans._items")
+# a loan that this call closed
+specfun("closed_here", ["m", "k"], "(k in lm_items(m)) and old(lm_items(m)[k]._is_open) and not lm_items(m)[k]._is_open")
+# what never changes about a registered loan (only _is_open and the paid interest do)
+specfun("loans_static", ["m"],
+        "forall(lambda k=Id: ((k in lm_items(m)) == old(k in lm_items(m))) and implies(k in lm_items(m), "
+        "same_object(lm_items(m)[k], old(lm_items(m)[k])) and lm_items(m)[k]._id == old(lm_items(m)[k]._id) "
+        "and lm_items(m)[k]._borrowed_symbol == old(lm_items(m)[k]._borrowed_symbol) "
+        "and lm_items(m)[k]._borrowed_amount == old(lm_items(m)[k]._borrowed_amount) "
+        "and lm_items(m)[k]._created_at == old(lm_items(m)[k]._created_at) "
+        "and lm_items(m)[k].no_collateral == old(lm_items(m)[k].no_collateral) "
+        "and implies(lm_items(m)[k]._is_open, old(lm_items(m)[k]._is_open))))")
+REPAY_POST = [
+    # only interest leaves the account: totals change exactly by what the ledger records (C01)
+    ("ledger", "forall(lambda s=Str: (at(om_acc(self).balances, s) - at(om_acc(self).borrowed, s)) - old(at(om_acc(self).balances, s) - at(om_acc(self).borrowed, s)) "
+               "== GHOST.ledger[s] - old(GHOST.ledger[s]))"),
+    ("holds_same", "forall(lambda s=Str: at(om_acc(self).holds, s) == old(at(om_acc(self).holds, s)))"),
+    # loans are only closed, never opened / replaced / re-dated (C11)
+    ("loans_only_close", "loans_static(self)"),
+    # C11 (statement): only loans in the symbol the order acquired are repaid
+    ("credit_symbol_only", "forall(lambda k=Id: implies(closed_here(self, k), lm_items(self)[k]._borrowed_symbol == cs(order)))")]
+contract(OM + "_repay_loans", props=["C11", "C01", "C02"], types={"loan_ids": "List[Id]"},
+         requires=[("ctx", "om_ctx_wf(self)"), ("lm", "lm_inv(om_lm(self))"), ("clock", "clock_ok(om_lm(self))"),
+                   ("collateral_free", "om_lm(self)._lending_strategy.no_collateral"),
+                   ("clock2", "forall(lambda k=Id: implies(k in om_lm(self)._loans._items, now_of(om_lm(self)) >= om_lm(self)._loans._items[k]._created_at))")],
+         ensures=BORROW_LM + REPAY_POST + [
+                  # nothing but the loans closed here is recorded on the order
+                  ("recorded_1", "forall(lambda k=Id: implies(k in order._loan_ids, old(k in order._loan_ids) or closed_here(self, k)))"),
+                  # (the converse, "every loan closed here is recorded", needs an existential witness into a list grown by
+                  # append, which z3 leaves undecided: not claimed)
+                  ("recorded_old", "forall(lambda k=Id: implies(old(k in order._loan_ids), k in order._loan_ids))")],
+         modifies=ACC3 + ["content(self._ctx.loan_mgr._collateral_by_loan)", "content(order._loan_ids)", "GHOST.ledger", "every(Loan)"],
+         # C11 (statement): "repaid largest first": when a loan is attempted, every strictly larger loan in the acquired
+         # symbol that is still open has been attempted before (and could not be afforded)
+         site_pre={"repay_loan#0": [("largest_first",
+                   "forall(lambda k=Id: implies((k in lm_items(self)) and lm_items(self)[k]._is_open and lm_items(self)[k]._borrowed_symbol == cs(order) "
+                   "and lm_items(self)[k]._borrowed_amount > loan.borrowed_amount, "
+                   "exists(lambda i=Int: 0 <= i and i < IDX and seq_at(candidate_loans, i).id == k)))"),
+                   ("in_symbol_and_open", "(loan.id in lm_items(self)) and lm_items(self)[loan.id]._borrowed_symbol == cs(order) "
+                                          "and lm_items(self)[loan.id]._is_open")]},
+         loops={0: dict(invariant=BORROW_LM + REPAY_POST + [
+                            ("ctx", "om_ctx_wf(self)"), ("clock", "clock_ok(om_lm(self)) and now_of(om_lm(self)) == old(now_of(om_lm(self)))"),
+                            ("collateral_free", "om_lm(self)._lending_strategy.no_collateral"),
+                            ("order_same", "content_unchanged(order._loan_ids)"),
+                            # what the candidate list is (established once, from get_loans / the filter / list.sort)
+                            ("cands_in", "forall(lambda i=Int: implies(0 <= i and i < len(candidate_loans), seq_at(candidate_loans, i).id in lm_items(self)))"),
+                            ("cands_sym", "forall(lambda i=Int: implies(0 <= i and i < len(candidate_loans), lm_items(self)[seq_at(candidate_loans, i).id]._borrowed_symbol == cs(order)))"),
+                            ("cands_amount", "forall(lambda i=Int: implies(0 <= i and i < len(candidate_loans), "
+                                             "lm_items(self)[seq_at(candidate_loans, i).id]._borrowed_amount == seq_at(candidate_loans, i).borrowed_amount))"),
+                            ("cands_open", "forall(lambda i=Int: implies(0 <= i and i < len(candidate_loans), let(lambda k=seq_at(candidate_loans, i).id: old(lm_items(self)[k]._is_open))))"),
+                            ("sorted", "forall(lambda i=Int, j=Int: implies(0 <= i and i < j and j < len(candidate_loans), "
+                                       "seq_at(candidate_loans, i).borrowed_amount >= seq_at(candidate_loans, j).borrowed_amount))"),
+                            ("nodup", "forall(lambda i=Int, j=Int: implies(0 <= i and i < j and j < len(candidate_loans), "
+                                      "seq_at(candidate_loans, i).id != seq_at(candidate_loans, j).id))"),
+                            ("complete", "forall(lambda k=Id: implies((k in lm_items(self)) and old(lm_items(self)[k]._is_open) and lm_items(self)[k]._borrowed_symbol == cs(order), "
+                                         "exists(lambda i=Int: 0 <= i and i < len(candidate_loans) and seq_at(candidate_loans, i).id == k)))"),
+                            # only loans already attempted have been closed
+                            ("closed_prefix", "forall(lambda k=Id: implies(closed_here(self, k), exists(lambda i=Int: 0 <= i and i < IDX and seq_at(candidate_loans, i).id == k)))"),
+                            ("recorded_2", "forall(lambda i=Int: implies(0 <= i and i < len(loan_ids), let(lambda k=seq_at(loan_ids, i): closed_here(self, k))))")],
+                        modifies=ACC3 + ["content(self._ctx.loan_mgr._collateral_by_loan)", "GHOST.ledger", "every(Loan)", "content(loan_ids)"]),
+                1: dict(invariant=[("recorded_1", "forall(lambda k=Id: implies(k in order._loan_ids, old(k in order._loan_ids) or "
+                                                  "exists(lambda i=Int: 0 <= i and i < IDX and i < len(loan_ids) and seq_at(loan_ids, i) == k)))"),
+                                   ("recorded_2", "forall(lambda k=Id: implies(old(k in order._loan_ids), k in order._loan_ids))"),
+                                   ("recorded_3", "forall(lambda i=Int: implies(0 <= i and i < IDX, seq_at(loan_ids, i) in order._loan_ids))")],
+                        modifies=["content(order._loan_ids)"])},
+         # anything but NotEnoughBalance raised by a repayment (NoPrice, missing lending conditions) escapes: a prefix of the
+         # repayments has happened, the books are consistent
+         raises={"Error": BORROW_LM + REPAY_POST},
+         notes="auto-repay: iteration over get_loans() (TRUSTED plumbing contract), list.sort builtin contract")
+
+# What the callers of _repay_loans are verified against (variant H_repay): the contract that used to be TRUSTED for the
+# whole function, unchanged.  It differs from the contract proved above in two ways, both assumptions on the callers' side:
+#   (H-repay)  no exception other than NotEnoughBalance is raised inside auto-repay, i.e. the interest of every open loan
+#              can be priced and every borrowed symbol has lending conditions and a configured precision;
+#   (frame)    the callers' frames do not list the loans' `_is_open` / paid interest, so what they prove about loans across
+#              the closing of an auto-repay order is relative to "loans only close" below, not to an exact frame.
+# The real function is verified against the main contract above (exceptional exit admitted, exact frame every(Loan)).
+contract(OM + "_repay_loans", variant="H_repay", props=["C11", "C01", "C02"],
          requires=[("ctx", "om_ctx_wf(self)"), ("lm", "lm_inv(om_lm(self))"), ("clock", "clock_ok(om_lm(self))"),
                    ("collateral_free", "om_lm(self)._lending_strategy.no_collateral"),
                    ("clock2", "forall(lambda k=Id: implies(k in om_lm(self)._loans._items, now_of(om_lm(self)) >= om_lm(self)._loans._items[k]._created_at))")],
          ensures=BORROW_LM + [
-                  # only interest leaves the account: totals change exactly by what the ledger records (C01)
                   ("ledger", "forall(lambda s=Str: (at(om_acc(self).balances, s) - at(om_acc(self).borrowed, s)) - old(at(om_acc(self).balances, s) - at(om_acc(self).borrowed, s)) "
                              "== GHOST.ledger[s] - old(GHOST.ledger[s]))"),
                   ("holds_same", "forall(lambda s=Str: at(om_acc(self).holds, s) == old(at(om_acc(self).holds, s)))"),
@@ -276,13 +354,14 @@ contract(OM + "_repay_loans", props=["C11", "C01", "C02"],
                                        "and implies(om_lm(self)._loans._items[k]._is_open, old(om_lm(self)._loans._items[k]._is_open))))")],
          modifies=ACC3 + ["content(self._ctx.loan_mgr._collateral_by_loan)", "content(order._loan_ids)", "GHOST.ledger"],
          trusted=True,
-         notes="TRUSTED for now: list.sort(key, reverse) and iteration over get_loans() results")
+         notes="TRUSTED caller-side view of auto-repay: hypothesis H-repay (only NotEnoughBalance is raised inside auto-repay) and a "
+               "frame that omits the loans' own fields; every postcondition listed here is proved for the real function by the main contract")
 
 # ---------------------------------------------------------------------------------------------------------------------
 # closing an order: release its hold (C06), auto-repay (C11)
 # ---------------------------------------------------------------------------------------------------------------------
 specfun("holds_total_eq", ["m"], "TRUE")
-contract(OM + "_order_closed", props=P + ["C11"],
+contract(OM + "_order_closed", props=P + ["C11"], callee_variant="H_repay",
          requires=[("ctx", "om_ctx_wf(self)"), ("lm", "lm_inv(om_lm(self))"), ("closed", "not st_open(order)"), ("order", "order_wf(order)"),
                    ("collateral_free", "om_lm(self)._lending_strategy.no_collateral"),
                    ("holds_nonneg", "om_holds_nonneg(self)"),
